@@ -92,9 +92,27 @@ pub mod m3 {
         for (i, j) in cells { s.push_str(&format!(" {} {}", i, j)); }
         s
     }
-    pub fn gen_hfwalk(r: &mut Rng, thorough: bool) -> Vec<(String, String)> {
+    /// `hfbest`: the real 3-D height-field cast run with scripted part-cast answers; args = `hfwalk` args + script
+    pub fn hfbest_exec(a: &mut Args) -> String {
+        let ni = a.u(); let nj = a.u(); let hmin = a.f(); let hmax = a.f(); let sc = dx::v(a);
+        let pos12 = dx::iso(a); let vel = dx::v(a); let he = dx::v(a); let max_toi = a.f(); let target = a.f();
+        let script = parse_script(a);
+        let mut hs = px::na::DMatrix::from_element(ni + 1, nj + 1, hmin); hs[(0, 0)] = hmax;
+        let hf = px::shape::HeightField::new(hs, sc);
+        let o = ShapeCastOptions { max_time_of_impact: max_toi, target_distance: target, stop_at_penetration: true, compute_impact_geometry_on_penetration: false };
+        let d = ScriptDispatcher { script, calls: std::sync::Mutex::new(0) };
+        let r = px::query::details::cast_shapes_heightfield_shape(&d, &pos12, &vel, &hf, &Cuboid::new(he), o);
+        fmt_script_result(r, &d)
+    }
+    pub fn gen_hfbest(r: &mut Rng, thorough: bool) -> Vec<(String, String)> {
         let mut v = Vec::new();
-        for it in 0..(if thorough { 15000 } else { 1500 }) {
+        for (_, a) in gen_hfwalk_n(r, if thorough { 6000 } else { 600 }) { let s = gen_script(r); v.push(("hfbest".to_string(), format!("{} {}", a, s))); }
+        v
+    }
+    pub fn gen_hfwalk(r: &mut Rng, thorough: bool) -> Vec<(String, String)> { gen_hfwalk_n(r, if thorough { 15000 } else { 1500 }) }
+    pub fn gen_hfwalk_n(r: &mut Rng, count: usize) -> Vec<(String, String)> {
+        let mut v = Vec::new();
+        for it in 0..count {
             let lat = it % 4 != 3;
             let ni = if lat { *r.pick(&[2usize, 4, 8, 3, 5, 6]) } else { 2 + r.below(7) as usize };
             let nj = if lat { *r.pick(&[2usize, 4, 8, 3, 5, 6]) } else { 2 + r.below(7) as usize };
@@ -260,10 +278,27 @@ pub mod m2 {
     /// borders and outside the field (flying in or away), right / left / no horizontal motion (signed zeros), removed segments,
     /// rotated cuboids, `max_time_of_impact` generic, huge, and EXACTLY at / one ulp around the time at which the leading face of
     /// the box reaches a grid line (the tie of the loop's `>=` break)
-    pub fn gen_hfwalk(r: &mut Rng, thorough: bool) -> Vec<(String, String)> {
+    /// `hfbest`: the real 2-D height-field cast run with scripted part-cast answers; args = `hfwalk` args + script
+    pub fn hfbest_exec(a: &mut Args) -> String {
+        let sh = heightfield(a);
+        let hf = match sh.as_heightfield() { Some(h) => h, None => return "nofn".into() };
+        let pos12 = dx::iso(a); let vel = dx::v(a); let he = dx::v(a); let max_toi = a.f(); let target = a.f();
+        let script = parse_script(a);
+        let o = ShapeCastOptions { max_time_of_impact: max_toi, target_distance: target, stop_at_penetration: true, compute_impact_geometry_on_penetration: false };
+        let d = ScriptDispatcher { script, calls: std::sync::Mutex::new(0) };
+        let r = px::query::details::cast_shapes_heightfield_shape(&d, &pos12, &vel, hf, &Cuboid::new(he), o);
+        fmt_script_result(r, &d)
+    }
+    pub fn gen_hfbest(r: &mut Rng, thorough: bool) -> Vec<(String, String)> {
+        let mut v = Vec::new();
+        for (_, a) in gen_hfwalk_n(r, if thorough { 6000 } else { 600 }, false) { let s = gen_script(r); v.push(("hfbest".to_string(), format!("{} {}", a, s))); }
+        v
+    }
+    pub fn gen_hfwalk(r: &mut Rng, thorough: bool) -> Vec<(String, String)> { gen_hfwalk_n(r, if thorough { 12000 } else { 1200 }, true) }
+    pub fn gen_hfwalk_n(r: &mut Rng, count: usize, print_fam: bool) -> Vec<(String, String)> {
         let mut v = Vec::new();
         let mut fam: std::collections::BTreeMap<String, usize> = Default::default();
-        for it in 0..(if thorough { 12000 } else { 1200 }) {
+        for it in 0..count {
             let lat = it % 4 != 3;
             let n = if lat { *r.pick(&[2usize, 4, 8, 3, 5, 6, 1]) } else { 1 + r.below(9) as usize };
             let w = if lat { *r.pick(&[0.5, 1.0, 2.0]) } else { r.uniform(0.3, 3.0) };
@@ -314,7 +349,7 @@ pub mod m2 {
             v.push(("hfwalk".to_string(), format!("{} {} {} {}{}{} {} {} {} {} {}", n + 1, hxs(hs.iter()), dx::hv(&sc), rem.len(), if rem.is_empty() { "" } else { " " }, rem.join(" "),
                 dx::hiso(&m), dx::hv(&vel), dx::hv(&he), hx(max_toi), hx(target))));
         }
-        if std::env::var("C06_FAMILIES").is_ok() { for (k, c) in &fam { eprintln!("family {} {}", k, c); } }
+        if print_fam && std::env::var("C06_FAMILIES").is_ok() { for (k, c) in &fam { eprintln!("family {} {}", k, c); } }
         v
     }
     /// small 2-D triangle mesh: a fan / strip of triangles
